@@ -118,6 +118,16 @@ pub fn check_bytes(bytes: &[u8], family: &str, sched: &Sched, rec: &mut Recorder
     let (fs, ok_s) = transparency(bytes, &Mode::Slice, rec)?;
     let (fr, ok_r) = transparency(bytes, &Mode::Reader(sched.clone()), rec)?;
     if (ok_s || ok_r) && fs != fr {
+        // K6, detection flavour: for a stream holding a character the YAML input
+        // reader rejects, whether the YAML trial sees its first document before
+        // libyaml's raw buffer reaches that character depends on the read sizes.
+        // Licensed only when exactly one mode says YAML, that mode then fails to
+        // translate, and the input-side predicate holds.
+        let yaml_side_failed = (fs == Some(Fmt::Yaml) && !ok_s) || (fr == Some(Fmt::Yaml) && !ok_r);
+        if yaml_side_failed && (fs == Some(Fmt::Yaml)) != (fr == Some(Fmt::Yaml)) && is_known_class("C09", "yaml_reader_level_defect_read_boundaries") && yaml_reader_level_defect(bytes) {
+            rec.known("yaml_reader_level_defect_read_boundaries");
+            return Ok(());
+        }
         return Err(format!(
             "input translates successfully under detection but is detected as {} from a slice and {} from a reader[{}]",
             opt_name(fs),
